@@ -26,7 +26,7 @@ RULE = (
 ASSUMPTIONS = ["both classes non-empty", "NumPy global RandomState seeded per case", "the C13 reference model for the interval formula"]
 SAMPLERS = [("replacement", None), ("replacement", "by_label"), ("single_pass", None), ("single_pass", "by_label"), ("dynamic", None), ("dynamic", "by_label"),
             ("proportion", None), ("custom", None), ("identity", None)]
-METRICS = ["fnr", "eer", "thr", "auc", "cm_int", "vec_callable", "scalar_callable", "tpr_alias", "partly_nan", "partly_nan", "rng_callable"]
+METRICS = ["fnr", "eer", "thr", "auc", "cm_int", "vec_callable", "scalar_callable", "tpr_alias", "partly_nan", "partly_nan", "rng_callable", "uint_callable"]
 
 
 def digest_cases(seed, n):
@@ -175,6 +175,13 @@ def execute(ctx, case):
         def metric(x):
             return float(len(x.pos)) / max(len(x.neg), 1)
         kw, fn = {}, lambda x: np.asarray(float(len(x.pos)) / max(len(x.neg), 1))
+    elif mname == "uint_callable":  # an integer-valued metric in a narrow unsigned type (a quantised score at a given rank): replicates and estimate are uint8
+        def _q8(v):
+            return int(np.clip(np.round(float(v) * 12.0 + 128.0), 0, 255))
+
+        def metric(x):
+            return np.array([_q8(np.median(np.asarray(x.pos, dtype=float))), _q8(np.asarray(x.neg, dtype=float).max()), _q8(np.asarray(x.pos, dtype=float).min())], dtype=np.uint8)
+        kw, fn = {}, metric
     elif mname == "rng_callable":  # a metric that consumes the global RNG (like a nested bootstrap): draws and evaluations interleave
         def metric(x, threshold):
             return x.fnr(threshold) + 0.0 * np.random.random()
